@@ -420,3 +420,57 @@ func genHistory(r *rand.Rand, p profile) []op {
 	emit(op{kind: opSave})
 	return ops
 }
+
+// singleLeafHistory: histories around a version whose root is a single leaf that later versions
+// keep as a shared child (empty saves referring to it, then growth), pruned in several separate
+// DeleteVersionsTo calls with more saves in between. Twins with a cold node cache (cache 0,
+// reopen after every save) reload the re-keyed nodes from disk.
+func singleLeafHistory(r *rand.Rand, p profile) []op {
+	m := newModel(p.iv, false)
+	var ops []op
+	emit := func(o op) {
+		ops = append(ops, o)
+		m.apply(o)
+	}
+	key := func(i int) []byte { return []byte{byte('a' + i)} }
+	val := func() []byte { return []byte{byte(1 + r.IntN(250)), byte(r.IntN(256))} }
+	emit(op{kind: opSet, key: key(0), val: val()})
+	emit(op{kind: opSave})
+	for k := r.IntN(3); k > 0; k-- { // empty versions referring to the single leaf
+		emit(op{kind: opSave})
+	}
+	nkeys := 1
+	grow := func() {
+		emit(op{kind: opSet, key: key(nkeys), val: val()})
+		nkeys++
+		emit(op{kind: opSave})
+	}
+	grow()
+	for k := r.IntN(3); k > 0; k-- {
+		if r.IntN(2) == 0 {
+			emit(op{kind: opSave})
+		} else {
+			grow()
+		}
+	}
+	first := p.iv
+	// two or three prunes, each of a prefix, with activity in between
+	for round := 0; round < 2+r.IntN(2); round++ {
+		if m.latest-first < 1 {
+			break
+		}
+		to := first + int64(r.IntN(int(m.latest-first)))
+		emit(op{kind: opPrune, ver: to})
+		first = to + 1
+		switch r.IntN(3) {
+		case 0:
+			emit(op{kind: opSave})
+		case 1:
+			grow()
+		default:
+			emit(op{kind: opSet, key: key(r.IntN(nkeys)), val: val()})
+			emit(op{kind: opSave})
+		}
+	}
+	return ops
+}
